@@ -279,10 +279,38 @@ def install():
     ENV.active = True
 
 
+class ThreadingProxy:
+    """Stands in for the ``threading`` module inside diskcache's namespaces:
+    identical, except that a scheduler client reports its logical id (thread
+    identities then repeat across executions, which the state cache needs)
+    and that threads started by the library can be adopted by a scheduler."""
+
+    def __getattr__(self, name):
+        return getattr(threading, name)
+
+    @staticmethod
+    def get_ident():
+        cid = ENV.client()
+        return cid if cid else threading.get_ident()
+
+    @staticmethod
+    def Thread(*args, **kwargs):
+        hook = ENV.hook
+        if hook is not None and hasattr(hook, 'spawn'):
+            return hook.spawn(*args, **kwargs)
+        return threading.Thread(*args, **kwargs)
+
+
 def load():
     """install() + import the library from the working tree."""
     install()
     import diskcache  # noqa
     path = os.path.dirname(os.path.abspath(diskcache.__file__))
     assert path == os.path.join(REPO, 'diskcache'), path
+    proxy = ThreadingProxy()
+    for mod in list(sys.modules.values()):
+        name = getattr(mod, '__name__', '')
+        if name.startswith('diskcache') and \
+                getattr(mod, 'threading', None) is threading:
+            mod.threading = proxy
     return diskcache
